@@ -15,6 +15,7 @@ import vlib
 
 PROP = "C08"
 TSAN_SOURCES = ["C08_tsan_loop.cc", "C08_tsan_conn.cc", "C08_tsan_base.cc"]
+# (fwrite_unlocked: the wrapper also tells TSan that stdio writes into the buffer the program handed to setbuffer)
 THOROUGH_ROUNDS = 40                                  # per scenario and per poller (epoll, poll)
 TSAN_WRAP = ["__tsan_read8", "__tsan_write4", "__tsan_read4", "fwrite_unlocked"]       # forced schedules (harness/C08_tsan.h)
 FAILFAST_OPS = ["loop", "updateChannel", "removeChannel", "hasChannel", "pool_start", "pool_getNextLoop",
@@ -240,6 +241,14 @@ def viol_text(recs, v, summary):
             pass
         return ("%s::%s still uses %s after storing %s, on which the owner thread may leave its loop and destroy the "
                 "object (~%s): use after release" % (cls, site, what, "/".join(flags) or "the exit flag", cls))
+    if kind in ("nostaticclass", "staticclass"):
+        e = (summary.get("statics") or {}).get(what, {})
+        acc = ", ".join("%s:%s" % (a[0], a[1]) for a in e.get("accs", [])[:8]) or "-"
+        head = ("static-storage variable %s (%s, type %s, %s bytes in %s) - ONE location shared by all objects and threads - "
+                % (e.get("demangled", what), site, e.get("type", "?"), e.get("size", "?"), e.get("section", "?")))
+        if kind == "nostaticclass":
+            return head + "has no protection class in lib/C08_table.txt (accessed by %s)" % acc
+        return head + "does not live up to its class in lib/C08_table.txt (tls=%s atomic=%s, accessed by %s)" % (e.get("tls"), e.get("atomic"), acc)
     if kind == "call":
         return "%s::%s (an any-thread / loop context) calls the loop-only or set-up method %s directly" % (cls, site, what)
     if kind == "nofailfast":
@@ -331,6 +340,15 @@ def map_report(rep, idx):
         return set(), per
     common = set((c, f) for (c, f, m, k) in per[0]) & set((c, f) for (c, f, m, k) in per[1])
     return common, per
+
+
+def norm_static_name(dem):
+    n = dem.replace("(anonymous namespace)", "{anon}")
+    prev = None
+    while prev != n:
+        prev = n
+        n = re.sub(r"\([^()]*\)", "", n)
+    return re.sub(r"\s+", "", n)
 
 
 FRAME_METHOD = re.compile(r"muduo::(?:net::)?(?:detail::)?(\w+)::(~?\w+)\(")
@@ -511,6 +529,9 @@ def run(chk, replay=None):
             BV.setdefault((v[0], v[2]), viol_key(recs, v))
             BVSITE.setdefault((v[0], v[2]), v[0])
 
+    SV = set(v[2] for v in recs["V"] if v[0] == "static")
+    globals_seen = {}
+
     # ---- TSan suite
     t1 = time.time()
     results = []
@@ -545,6 +566,11 @@ def run(chk, replay=None):
             return sorted(set(bv for bv in BV for cm in (lt_ or ()) if cm[0] == bv[0] and cm[1] in (bv[1], bv[1] + "InLoop")))
         run_hits = sorted(set(h for rep_ in reps for h in bv_hits(rep_)))
         for rep in reps:
+            gm = re.search(r"Location is global '([^']+)'", rep["text"])
+            if gm and norm_static_name(gm.group(1)) in SV:
+                # a race on a static-storage variable the static side already reports: its witness
+                globals_seen.setdefault(norm_static_name(gm.group(1)), {"scenario": name, "rep": rep})
+                continue
             sig = (rep["kind"], tuple(sorted("%s:%d" % (os.path.basename(fr[0][1]), fr[0][2]) if fr else "?"
                                              for (_w, fr) in [(w_, [x for x in f_ if x[1].startswith(vlib.REPO)] or f_) for (w_, f_) in rep["stacks"][:2]])))
             distinct[sig] = distinct.get(sig, 0) + 1
@@ -726,6 +752,8 @@ def run(chk, replay=None):
     for (k, v) in static_bad:
         text = viol_text(recs, v, summary)
         w = witness_for(v[0], v[2], v[1]) if v[3] in ("R", "W", "destroy", "useafter") + BORROW_KINDS else None
+        if v[0] == "static":
+            w = globals_seen.get(v[2])
         if w:
             p = chk.write_replay("static_%s.case" % re.sub(r"\W+", "_", k)[:80],
                                  replay_text([text, "discipline_ok no longer holds / unrecorded violation; witness below",
